@@ -209,22 +209,32 @@ class MockCA:
         rec = self.ev(**rec)   # the logged object itself: later annotations (sig_ok, ...) land in the log
         if self.o["delay_ms"]:
             time.sleep(self.o["delay_ms"] / 1000.0)
-        rule = self.match_rule(kind, nth, gidx)
+        rule = self.match_rule(kind, nth, gidx, rec)
         if rule is not None:
             ans = dict(rule["answer"])
+            rec["rule"] = rule.get("label", True)
             if ans.get("process"):
                 # let the CA process the request normally, then override parts of the answer
                 base_ans = self.conform(kind, method, path, jws, rec)
+                patch = ans.pop("patch", None)
+                drop_keys = ans.pop("drop_keys", None)
                 base_ans.update({k: v for k, v in ans.items() if k != "process"})
+                if isinstance(base_ans.get("body"), dict):
+                    if patch:
+                        base_ans["body"] = dict(base_ans["body"], **patch)
+                    for dk in (drop_keys or []):
+                        base_ans["body"] = {k: v for k, v in base_ans["body"].items() if k != dk}
                 ans = base_ans
         else:
             ans = self.conform(kind, method, path, jws, rec)
         self.send(rq, ans, rec, method)
 
-    def match_rule(self, kind, nth, gidx):
+    def match_rule(self, kind, nth, gidx, rec=None):
         with self.lock:
             for r in self.rules:
                 if r.get("done"):
+                    continue
+                if "payload_contains" in r and r["payload_contains"] not in ((rec or {}).get("payload") or ""):
                     continue
                 if "gidx" in r:
                     if r["gidx"] != gidx:
